@@ -364,3 +364,140 @@ func (p *pkgInfo) reachable(roots []string) map[string]bool {
 	}
 	return seen
 }
+
+// sharedSliceWrites lists every statement, in any function of the package, that
+// writes into (or permutes, or copies over) a slice reached through the named
+// field: element assignments, inc/dec, sort.* / slices.* calls and copy() whose
+// first argument is (a slice of) that field.  Opts.LocalGOPATHs is handed to the
+// Snapshot by reference, so such a statement modifies the caller's Opts, which
+// may be shared between goroutines.
+func (p *pkgInfo) sharedSliceWrites(field string) []string {
+	var out []string
+	show := func(e ast.Expr) string {
+		var sb strings.Builder
+		printer.Fprint(&sb, p.fset, e)
+		return sb.String()
+	}
+	// mentions: e is field itself, or an index/slice of it
+	var through func(e ast.Expr) bool
+	through = func(e ast.Expr) bool {
+		switch v := e.(type) {
+		case *ast.SelectorExpr:
+			return v.Sel.Name == field
+		case *ast.IndexExpr:
+			return through(v.X)
+		case *ast.SliceExpr:
+			return through(v.X)
+		case *ast.ParenExpr:
+			return through(v.X)
+		}
+		return false
+	}
+	for _, f := range p.files {
+		for _, d := range f.Decls {
+			fd, ok := d.(*ast.FuncDecl)
+			if !ok || fd.Body == nil {
+				continue
+			}
+			name := fd.Name.Name
+			// locals that alias the field: x := s.LocalGOPATHs / x := s.LocalGOPATHs[a:b]
+			alias := map[types.Object]bool{}
+			isAlias := func(e ast.Expr) bool {
+				for {
+					switch v := e.(type) {
+					case *ast.IndexExpr:
+						e = v.X
+						continue
+					case *ast.SliceExpr:
+						e = v.X
+						continue
+					case *ast.ParenExpr:
+						e = v.X
+						continue
+					case *ast.Ident:
+						obj := p.info.Uses[v]
+						if obj == nil {
+							obj = p.info.Defs[v]
+						}
+						return alias[obj]
+					}
+					return through(e)
+				}
+			}
+			ast.Inspect(fd.Body, func(n ast.Node) bool {
+				if v, ok := n.(*ast.AssignStmt); ok && len(v.Lhs) == len(v.Rhs) {
+					for i, l := range v.Lhs {
+						if id, ok := l.(*ast.Ident); ok {
+							if _, isIdx := v.Rhs[i].(*ast.IndexExpr); !isIdx && isAlias(v.Rhs[i]) {
+								obj := p.info.Defs[id]
+								if obj == nil {
+									obj = p.info.Uses[id]
+								}
+								if obj != nil {
+									alias[obj] = true
+								}
+							}
+						}
+					}
+				}
+				return true
+			})
+			ast.Inspect(fd.Body, func(n ast.Node) bool {
+				switch v := n.(type) {
+				case *ast.AssignStmt:
+					if v.Tok == token.DEFINE {
+						return true
+					}
+					for _, l := range v.Lhs {
+						if ix, ok := l.(*ast.IndexExpr); ok && isAlias(ix.X) {
+							out = append(out, fmt.Sprintf("%s | %s", name, show(l)))
+						}
+					}
+				case *ast.IncDecStmt:
+					if ix, ok := v.X.(*ast.IndexExpr); ok && isAlias(ix.X) {
+						out = append(out, fmt.Sprintf("%s | %s", name, show(v.X)))
+					}
+				case *ast.CallExpr:
+					if len(v.Args) == 0 {
+						return true
+					}
+					switch fn := v.Fun.(type) {
+					case *ast.SelectorExpr:
+						if x, ok := fn.X.(*ast.Ident); ok && (x.Name == "sort" || x.Name == "slices") && isAlias(v.Args[0]) {
+							out = append(out, fmt.Sprintf("%s | %s.%s(%s)", name, x.Name, fn.Sel.Name, show(v.Args[0])))
+						}
+					case *ast.Ident:
+						if (fn.Name == "copy" || fn.Name == "clear") && isAlias(v.Args[0]) {
+							out = append(out, fmt.Sprintf("%s | %s(%s)", name, fn.Name, show(v.Args[0])))
+						}
+						if fn.Name == "append" && isAlias(v.Args[0]) {
+							// append may write into the shared backing array
+							out = append(out, fmt.Sprintf("%s | append(%s)", name, show(v.Args[0])))
+						}
+					}
+				}
+				return true
+			})
+		}
+	}
+	sort.Strings(out)
+	return out
+}
+
+// globalVars lists the package-level variables with their types: the only
+// places where state can survive from one call to the next.
+func (p *pkgInfo) globalVars() []string {
+	var out []string
+	for _, n := range p.pkg.Scope().Names() {
+		if v, ok := p.pkg.Scope().Lookup(n).(*types.Var); ok {
+			out = append(out, n+" "+types.TypeString(v.Type(), func(q *types.Package) string {
+				if q == p.pkg {
+					return ""
+				}
+				return q.Name()
+			}))
+		}
+	}
+	sort.Strings(out)
+	return out
+}
